@@ -395,6 +395,9 @@ class Flow:
         if rv.k == "use" or rv.k == "cast":
             return self.describe(rv.ops[0], depth - 1)
         if rv.k in ("ref", "copyderef"):
+            if all(e == "*" for e in rv.place.proj) and self.b.local_name(rv.place.local) is None:
+                # a re-borrow of a temporary: describe the temporary itself
+                return self.describe(_LocalOperand(rv.place.local, self.b.local_ty(rv.place.local)), depth - 1)
             return ("place", self.field_path(rv.place))
         if rv.k == "binop":
             return ("binop", rv.j["op"], self.describe(rv.ops[0], depth - 1), self.describe(rv.ops[1], depth - 1))
@@ -440,6 +443,15 @@ class Flow:
         return a
 
 
+class _LocalOperand:
+    """an operand that reads a whole local (used to describe temporaries behind re-borrows)"""
+
+    def __init__(self, local, ty):
+        self.place = Place({"l": local, "p": [], "ty": ty})
+        self.c = None
+        self.k = "copy"
+
+
 def fmt_desc(d):
     if not isinstance(d, tuple):
         return str(d)
@@ -461,6 +473,8 @@ def fmt_desc(d):
         return "discriminant(%s)" % d[1]
     if k == "adt":
         return "%s{%s}" % (d[1], ", ".join(fmt_desc(x) for x in d[2]))
+    if k == "index":
+        return "%s[%s]" % (fmt_desc(d[1]), fmt_desc(d[2]))
     return "%s(%s)" % (k, ", ".join(fmt_desc(x) for x in d[1:]))
 
 
